@@ -242,7 +242,7 @@ func Run(sc *Scenario) *Obs {
 			}
 		}
 	}
-	s, err := stack.Start(stack.Opts{Engine: sc.Engine, Balancer: sc.Balancer, Profile: "auto", EPs: eps, ModelDiscovery: sc.Flap})
+	s, err := stack.Start(stack.Opts{Vary: stack.VaryForJSON("c19", sc), Engine: sc.Engine, Balancer: sc.Balancer, Profile: "auto", EPs: eps, ModelDiscovery: sc.Flap})
 	if err != nil {
 		obs.StartErr = err.Error()
 		return obs
